@@ -108,11 +108,11 @@ theorem keep_refresh_keeps_secrets (w : World) (hw : Reachable w) (p : AP) (righ
   have hstep : w.step (.keygen p) = ⟨(uskKeygen w.msk rights w.rng).2.1, (uskKeygen w.msk rights w.rng).2.2⟩ := by
     simp only [World.step, hr]
   have hr1 : Reachable (w.step (.keygen p)) := by
-    obtain ⟨n, ops0, rfl⟩ := hw
-    exact ⟨n, ops0 ++ [.keygen p], by simp [List.foldl_append]⟩
+    obtain ⟨n, k0, ops0, rfl⟩ := hw
+    exact ⟨n, k0, ops0 ++ [.keygen p], by simp [List.foldl_append]⟩
   have hreach : Reachable w' := by
-    obtain ⟨n, ops0, rfl⟩ := hw
-    exact ⟨n, ops0 ++ [.keygen p] ++ ops, by simp [w', List.foldl_append]⟩
+    obtain ⟨n, k0, ops0, rfl⟩ := hw
+    exact ⟨n, k0, ops0 ++ [.keygen p] ++ ops, by simp [w', List.foldl_append]⟩
   have hi : Issued (w.step (.keygen p)).msk usk := by
     rw [hstep]; exact keygen_issues w.msk rights w.rng usk hk
   have hi' : Issued w'.msk usk := issued_stable _ ops usk hi
@@ -154,8 +154,8 @@ theorem refreshed_key_tracks (w : World) (hw : Reachable w) (usk : Usk) (keep : 
     (hok : (refresh w.msk usk keep w.rng).1 = .ok ()) (ops : List Op) :
     Tracks (ops.foldl World.step (w.step (.refresh usk keep))) (refresh w.msk usk keep w.rng).2.2.1 := by
   have hr1 : Reachable (w.step (.refresh usk keep)) := by
-    obtain ⟨n, ops0, rfl⟩ := hw
-    exact ⟨n, ops0 ++ [.refresh usk keep], by simp [List.foldl_append]⟩
+    obtain ⟨n, k0, ops0, rfl⟩ := hw
+    exact ⟨n, k0, ops0 ++ [.refresh usk keep], by simp [List.foldl_append]⟩
   exact steps_tracks ops _ hr1 _ (refresh_tracks w hw usk keep hok)
 
 /-- non-vacuity: log [9,7,5,3]; master holds all four; the user held [5,3] -/
